@@ -533,6 +533,17 @@ func signature(it *item) (sig core.Sig, what string, drift bool) {
 	if strings.HasPrefix(res.Trouble, "CRASH") {
 		return core.Sig{Family: "recompiler-crash", Feature: "panic"}, "the recompiler goroutine crashed the process: " + res.Trouble, false
 	}
+	if res.NoWatcher {
+		stale := ""
+		for i := range res.Obs {
+			if i < len(res.Disk) && allValid(res.Disk[i]) && strings.Join(res.Obs[i], ",") != strings.Join(res.Disk[i], ",") {
+				stale = fmt.Sprintf("after write %d (%+v) the disk holds %v, the Tofu renders %v", i+1, res.Sched[i], res.Disk[i], res.Obs[i])
+				break
+			}
+		}
+		return core.Sig{Family: "watch-setup", Feature: "watcher-not-created"},
+			"WatchFiles(true) was called before the files were added, inotify works in this process (own probe), but the bundle has no inotify descriptor and no recompiler goroutine: no write is ever noticed (no log line, no callback); " + stale, false
+	}
 	tr := res.Trace
 	pos := it.badPos
 	if !it.m3bad {
@@ -700,6 +711,26 @@ func signature(it *item) (sig core.Sig, what string, drift bool) {
 			fmt.Sprintf("recompilation callback with versions %v (registry visible through the Tofu at that moment: %v) at trace position %d (write %d, %+v) is not a step the model allows there (new registry visible before the callback, wrong argument, or no successful compile possible)", e["vers"], e["vis"], pos, widx+1, w), false
 	}
 	return core.Sig{Family: "watch-trace-rejected", Feature: kind}, fmt.Sprintf("event %v at position %d not allowed", e, pos), false
+}
+
+func allValid(vs []string) bool {
+	for _, v := range vs {
+		if v != "v1" && v != "v2" {
+			return false
+		}
+	}
+	return true
+}
+
+// observablyDead: a run without watcher in which the registry stayed behind a
+// valid disk (a run that only rewrote the same versions shows nothing).
+func observablyDead(res *Result) bool {
+	for i := range res.Obs {
+		if i < len(res.Disk) && allValid(res.Disk[i]) && strings.Join(res.Obs[i], ",") != strings.Join(res.Disk[i], ",") {
+			return true
+		}
+	}
+	return false
 }
 
 func harnessVariants(ms *modelSched, slow bool) []Write {
@@ -909,7 +940,7 @@ func Run(ctx *core.Ctx) {
 	// every rejected run is re-run twice in fresh processes: a violation is
 	// reported only if the behaviour reproduces (all re-runs rejected too)
 	rejected, confirmed, unstable, drifted := 0, 0, 0, 0
-	nsamples := 0
+	nsamples, nowatch := 0, 0
 	var bad []*item
 	for _, it := range items {
 		if it.res == nil {
@@ -917,6 +948,10 @@ func Run(ctx *core.Ctx) {
 		}
 		crash := strings.HasPrefix(it.res.Trouble, "CRASH")
 		if it.res.Trouble != "" && !crash {
+			continue
+		}
+		if it.res.NoWatcher && !observablyDead(it.res) {
+			nowatch++
 			continue
 		}
 		if !crash && !it.m2bad && !it.m3bad {
@@ -946,6 +981,9 @@ func Run(ctx *core.Ctx) {
 		n := 0
 		for _, it2 := range again[2*i : 2*i+2] {
 			if it2.res == nil {
+				continue
+			}
+			if it.res.NoWatcher && !(it2.res.NoWatcher && observablyDead(it2.res)) {
 				continue
 			}
 			if strings.HasPrefix(it2.res.Trouble, "CRASH") || (it2.res.Trouble == "" && (it2.m2bad || it2.m3bad)) {
@@ -980,6 +1018,9 @@ func Run(ctx *core.Ctx) {
 			rep["model_allows_observations"] = al
 		}
 		ctx.Violation(sig, what, rep)
+	}
+	if nowatch > 0 {
+		ctx.Extra["runs_without_watcher_nothing_observable"] = nowatch
 	}
 	ctx.Extra["runs_rejected"] = rejected
 	ctx.Extra["runs_rejected_and_reproduced"] = confirmed
